@@ -701,15 +701,23 @@ class Field(
             if domain_axes:
                 c = self.constructs._construct_dict("cell_method")
                 for cm_key, cm in c.items():
-                    cm_axes = cm.get_axes(None)
+                    cm_axes = cm.get_axes(())
                     if len(cm_axes) == 1 and cm_axes[0] in domain_axes:
                         keys.add(cm_key)
 
-            identities = ()
-            filter_kwargs = {
-                "filter_by_key": keys,
-                "todict": filter_kwargs.pop("todict", False),
-            }
+            if not keys:
+                # No keys were found but some criteria were provided,
+                # so force filter_by_key to return no cell method
+                # constructs.
+                keys = (None,)
+
+            # Select the keys from the cell method constructs that
+            # also meet any other filter criteria
+            todict = filter_kwargs.pop("todict", False)
+            out = self._filter_interface(
+                ("cell_method",), "cell_method", (), **filter_kwargs
+            )
+            return out.filter_by_key(*keys, todict=todict)
 
         return self._filter_interface(
             ("cell_method",), "cell_method", identities, **filter_kwargs
